@@ -10,10 +10,10 @@ import vlib  # noqa: E402
 META = dict(
     engine='mp',
     technique='explicit enumeration of a finite box: a generated family of PTG programs x every owner table of their tiles x process count x broadcast topology x short-message limit x thread count, each point executed as a real taskpool on the real distributed runtime and compared with a sequential reference interpreter',
-    level_text='A generated family of PTG programs whose task placement is a data-collection access (value chain across ranks, RW pipeline of one travelling tile, broadcast of one output to a (strided) range of consumers, one task with two outputs whose destination sets differ, 2- and 3-way gathers, a diamond, a control-only chain) is run for EVERY assignment of its tiles to ranks (all n^N owner tables: this contains every block-cyclic, tabular and hash placement), for mpiexec -n 1..4 (quick: 1..2 plus the 3-rank two-output reproducer), runtime_comm_coll_bcast in {0,1,2} (star, chain, binomial), runtime_comm_short_limit in {0, default 1 KiB} with tiles of 64 B and 2 KiB (data inside the activation message vs. rendezvous), 1 and 2 compute threads. For every point: each task instance ran exactly once and on the rank of its placement, read on every flow exactly the value the sequential reference reads (tiles are self-checking, 8 or 256 words), the gathered final contents of both collections equal the reference, and every process terminated. The effective MCA values are read back from the runtime and must equal the requested ones.',
+    level_text='A generated family of PTG programs whose task placement is a data-collection access (value chain across ranks, RW pipeline of one travelling tile, broadcast of one output to a (strided) range of consumers, one task with two outputs whose destination sets differ, 2- and 3-way gathers, a diamond, a control-only chain) is run for EVERY assignment of its tiles to ranks (all n^N owner tables: this contains every block-cyclic, tabular and hash placement), for mpiexec -n 1..4 (quick: 1..2 plus the 3-rank two-output reproducer), runtime_comm_coll_bcast in {0,1,2} (star, chain, binomial), runtime_comm_short_limit in {0, default 1 KiB} with tiles of 64 B, 1120 B and 2 KiB (data inside the activation message, at the boundary of the short buffer, rendezvous), 1 and 2 compute threads. For every point: each task instance ran exactly once and on the rank of its placement, read on every flow exactly the value the sequential reference reads (tiles are self-checking, 8, 140 or 256 words), the gathered final contents of both collections equal the reference, and every process terminated. The effective MCA values are read back from the runtime and must equal the requested ones.',
     level_note='E5: message timing and thread interleaving are NOT controlled (each point is executed once per run with whatever order OpenMPI 4.1.4 ob1/vader and the scheduler produce); exhaustive over programs x placements x configurations only. The forwarding logic itself is decided exhaustively by C13. Known findings C13-chain-relay-missing-output / C13-binomial-relay-missing-output: a point is predicted to lose an activation by a model of the propagation loop of remote_dep.c (computed from the destination sets and the order of ranks after the root, never from a program name); such points run alone, and their failure is reported as KNOWN-FINDING only if every predicted loss satisfies the attribution rule and the finding is listed; a failure anywhere else, or a predicted loss that does not happen, is not excused. Not generated: one output flow sent with several different remote shapes (documented unsupported case); write-backs to remote tiles; datatypes other than one contiguous tile type.',
 )
-RULE = ("box = variants of the generated family (family, N, M, L) x all n^N owner tables x tile size {64 B, 2 KiB} inside every launch; launches = n x "
+RULE = ("box = variants of the generated family (family, N, M, L) x all n^N owner tables x tile size {64 B, 1120 B, 2 KiB} inside every launch; launches = n x "
         "runtime_comm_coll_bcast {0,1,2} x runtime_comm_short_limit {0, default} x threads {1,2}; states = distinct (variant, owner table, tile size, n, "
         "bcast, short limit, threads) points completed; transitions = task instances + flow inputs + final tiles compared with the reference; a point is "
         "non-trivial when at least one dependency edge crosses ranks; distinct outcomes = distinct (variant, owner table, verdict) triples")
@@ -22,7 +22,8 @@ ASSUME = ["MPI message timing and thread scheduling are not enumerated (one exec
           "known findings C13-chain-relay-missing-output and C13-binomial-relay-missing-output are classified with the attribution rule of DESIGN.md section 7 item 2"]
 KNOWN = {1: 'C13-chain-relay-missing-output', 2: 'C13-binomial-relay-missing-output'}
 TOPO = {0: 'star', 1: 'chain', 2: 'binomial'}
-ELEMS = (8, 256)
+ELEMS = (8, 140, 256)     # 64 B, 1120 B, 2 KiB per tile: the middle size sits between (short buffer - activation header) and the short buffer itself,
+                          # where eager-vs-rendezvous must be decided on the room really left in the message (seeded change C05-1)
 DEFAULT_SHORT = 1024
 
 
